@@ -245,6 +245,14 @@ pub fn bits_accessors(a: &AVP) -> Option<(bool, bool)> {
     })
 }
 
+/// Text fields as the harness keeps them. A library change can hand back a `String` that is not
+/// UTF-8 (built unchecked); formatting such a value panics inside the harness, so it is made
+/// printable here — the replacement characters still differ from anything the specification
+/// produces, and the checks report the value as wrong.
+fn txt(s: &String) -> String {
+    String::from_utf8_lossy(s.as_bytes()).into_owned()
+}
+
 pub fn avp_to_spec(a: &AVP) -> SAvp {
     let plain = |attr: u16, val: SVal| SAvp::Plain { attr, val };
     match a {
@@ -256,7 +264,7 @@ pub fn avp_to_spec(a: &AVP) -> SAvp {
                 error: r
                     .error
                     .as_ref()
-                    .map(|e| (error_type_code(&e.error_type), e.error_message.clone())),
+                    .map(|e| (error_type_code(&e.error_type), e.error_message.as_ref().map(txt))),
             },
         ),
         AVP::ProtocolVersion(p) => plain(2, SVal::ProtoVer(p.version, p.revision)),
@@ -265,7 +273,7 @@ pub fn avp_to_spec(a: &AVP) -> SAvp {
         AVP::TieBreaker(t) => plain(5, SVal::U64(t.value)),
         AVP::FirmwareRevision(x) => plain(6, SVal::U16(x.value)),
         AVP::HostName(x) => plain(7, SVal::Bytes(x.value.clone())),
-        AVP::VendorName(x) => plain(8, SVal::Str(x.value.clone())),
+        AVP::VendorName(x) => plain(8, SVal::Str(txt(&x.value))),
         AVP::AssignedTunnelId(x) => plain(9, SVal::U16(x.value)),
         AVP::ReceiveWindowSize(x) => plain(10, SVal::U16(x.value)),
         AVP::Challenge(x) => plain(11, SVal::Bytes(x.value.clone())),
@@ -274,7 +282,7 @@ pub fn avp_to_spec(a: &AVP) -> SAvp {
             SVal::Q931 {
                 code: x.cause_code,
                 msg: x.cause_msg,
-                adv: x.advisory.clone(),
+                adv: x.advisory.as_ref().map(txt),
             },
         ),
         AVP::ChallengeResponse(x) => plain(13, SVal::Fix16(x.value)),
@@ -284,9 +292,9 @@ pub fn avp_to_spec(a: &AVP) -> SAvp {
         AVP::MaximumBps(x) => plain(17, SVal::U32(x.value)),
         AVP::BearerType(_) => plain(18, SVal::Bits(bits_word(a))),
         AVP::FramingType(_) => plain(19, SVal::Bits(bits_word(a))),
-        AVP::CalledNumber(x) => plain(21, SVal::Str(x.value.clone())),
-        AVP::CallingNumber(x) => plain(22, SVal::Str(x.value.clone())),
-        AVP::SubAddress(x) => plain(23, SVal::Str(x.value.clone())),
+        AVP::CalledNumber(x) => plain(21, SVal::Str(txt(&x.value))),
+        AVP::CallingNumber(x) => plain(22, SVal::Str(txt(&x.value))),
+        AVP::SubAddress(x) => plain(23, SVal::Str(txt(&x.value))),
         AVP::TxConnectSpeed(x) => plain(24, SVal::U32(x.value)),
         AVP::PhysicalChannelId(x) => plain(25, SVal::Fix4(x.value)),
         AVP::InitialReceivedLcpConfReq(x) => plain(26, SVal::Bytes(x.value.clone())),
@@ -332,13 +340,27 @@ fn bits_from_word<K>(word: u32, f: impl Fn(&mut SliceReader) -> rl2tp::common::D
     f(&mut r).ok()
 }
 
+/// A caller's buffers are seldom exactly full: values handed to the crate carry spare capacity,
+/// so that anything computed from `capacity()` rather than `len()` shows.
+fn roomy(v: &Vec<u8>) -> Vec<u8> {
+    let mut o = Vec::with_capacity(v.len() + 11);
+    o.extend_from_slice(v);
+    o
+}
+
+fn roomy_s(v: &String) -> String {
+    let mut o = String::with_capacity(v.len() + 11);
+    o.push_str(v);
+    o
+}
+
 /// Build the crate value for a specification value; `None` when the crate's types cannot
 /// represent it (unassigned enumerated code, wrong-kind value for the attribute number).
 pub fn avp_to_crate(a: &SAvp) -> Option<AVP> {
     Some(match a {
         SAvp::Hidden { attr, value } => AVP::Hidden(Hidden {
             attribute_type: *attr,
-            value: value.clone(),
+            value: roomy(value),
         }),
         SAvp::Plain { attr, val } => match (*attr, val) {
             (0, SVal::MessageType(c)) => AVP::MessageType(message_type_from_code(*c)?),
@@ -348,7 +370,7 @@ pub fn avp_to_crate(a: &SAvp) -> Option<AVP> {
                     None => None,
                     Some((et, m)) => Some(RcError {
                         error_type: error_type_from_code(*et)?,
-                        error_message: m.clone(),
+                        error_message: m.as_ref().map(roomy_s),
                     }),
                 },
             }),
@@ -360,15 +382,15 @@ pub fn avp_to_crate(a: &SAvp) -> Option<AVP> {
             (4, SVal::Bits(w)) => AVP::BearerCapabilities(bits_from_word(*w, |r| BearerCapabilities::try_read(r))?),
             (5, SVal::U64(v)) => AVP::TieBreaker(TieBreaker::from(*v)),
             (6, SVal::U16(v)) => AVP::FirmwareRevision(FirmwareRevision::from(*v)),
-            (7, SVal::Bytes(v)) => AVP::HostName(HostName::from(v.clone())),
-            (8, SVal::Str(v)) => AVP::VendorName(VendorName::from(v.clone())),
+            (7, SVal::Bytes(v)) => AVP::HostName(HostName::from(roomy(v))),
+            (8, SVal::Str(v)) => AVP::VendorName(VendorName::from(roomy_s(v))),
             (9, SVal::U16(v)) => AVP::AssignedTunnelId(AssignedTunnelId::from(*v)),
             (10, SVal::U16(v)) => AVP::ReceiveWindowSize(ReceiveWindowSize::from(*v)),
-            (11, SVal::Bytes(v)) => AVP::Challenge(Challenge::from(v.clone())),
+            (11, SVal::Bytes(v)) => AVP::Challenge(Challenge::from(roomy(v))),
             (12, SVal::Q931 { code, msg, adv }) => AVP::Q931CauseCode(Q931CauseCode {
                 cause_code: *code,
                 cause_msg: *msg,
-                advisory: adv.clone(),
+                advisory: adv.as_ref().map(roomy_s),
             }),
             (13, SVal::Fix16(v)) => AVP::ChallengeResponse(ChallengeResponse::from(*v)),
             (14, SVal::U16(v)) => AVP::AssignedSessionId(AssignedSessionId::from(*v)),
@@ -377,19 +399,19 @@ pub fn avp_to_crate(a: &SAvp) -> Option<AVP> {
             (17, SVal::U32(v)) => AVP::MaximumBps(MaximumBps::from(*v)),
             (18, SVal::Bits(w)) => AVP::BearerType(bits_from_word(*w, |r| BearerType::try_read(r))?),
             (19, SVal::Bits(w)) => AVP::FramingType(bits_from_word(*w, |r| FramingType::try_read(r))?),
-            (21, SVal::Str(v)) => AVP::CalledNumber(CalledNumber::from(v.clone())),
-            (22, SVal::Str(v)) => AVP::CallingNumber(CallingNumber::from(v.clone())),
-            (23, SVal::Str(v)) => AVP::SubAddress(SubAddress::from(v.clone())),
+            (21, SVal::Str(v)) => AVP::CalledNumber(CalledNumber::from(roomy_s(v))),
+            (22, SVal::Str(v)) => AVP::CallingNumber(CallingNumber::from(roomy_s(v))),
+            (23, SVal::Str(v)) => AVP::SubAddress(SubAddress::from(roomy_s(v))),
             (24, SVal::U32(v)) => AVP::TxConnectSpeed(TxConnectSpeed::from(*v)),
             (25, SVal::Fix4(v)) => AVP::PhysicalChannelId(PhysicalChannelId::from(*v)),
-            (26, SVal::Bytes(v)) => AVP::InitialReceivedLcpConfReq(InitialReceivedLcpConfReq::from(v.clone())),
-            (27, SVal::Bytes(v)) => AVP::LastSentLcpConfReq(LastSentLcpConfReq::from(v.clone())),
-            (28, SVal::Bytes(v)) => AVP::LastReceivedLcpConfReq(LastReceivedLcpConfReq::from(v.clone())),
+            (26, SVal::Bytes(v)) => AVP::InitialReceivedLcpConfReq(InitialReceivedLcpConfReq::from(roomy(v))),
+            (27, SVal::Bytes(v)) => AVP::LastSentLcpConfReq(LastSentLcpConfReq::from(roomy(v))),
+            (28, SVal::Bytes(v)) => AVP::LastReceivedLcpConfReq(LastReceivedLcpConfReq::from(roomy(v))),
             (29, SVal::PAType(c)) => AVP::ProxyAuthenType(proxy_authen_type_from_code(*c)?),
-            (30, SVal::Bytes(v)) => AVP::ProxyAuthenName(ProxyAuthenName::from(v.clone())),
-            (31, SVal::Bytes(v)) => AVP::ProxyAuthenChallenge(ProxyAuthenChallenge::from(v.clone())),
+            (30, SVal::Bytes(v)) => AVP::ProxyAuthenName(ProxyAuthenName::from(roomy(v))),
+            (31, SVal::Bytes(v)) => AVP::ProxyAuthenChallenge(ProxyAuthenChallenge::from(roomy(v))),
             (32, SVal::PAId(v)) => AVP::ProxyAuthenId(ProxyAuthenId::from(*v)),
-            (33, SVal::Bytes(v)) => AVP::ProxyAuthenResponse(ProxyAuthenResponse::from(v.clone())),
+            (33, SVal::Bytes(v)) => AVP::ProxyAuthenResponse(ProxyAuthenResponse::from(roomy(v))),
             (34, SVal::CallErrors(a)) => AVP::CallErrors(CallErrors {
                 crc_errors: a[0],
                 framing_errors: a[1],
@@ -403,7 +425,7 @@ pub fn avp_to_crate(a: &SAvp) -> Option<AVP> {
                 receive_accm: *r,
             }),
             (36, SVal::Fix4(v)) => AVP::RandomVector(RandomVector::from(*v)),
-            (37, SVal::Bytes(v)) => AVP::PrivateGroupId(PrivateGroupId::from(v.clone())),
+            (37, SVal::Bytes(v)) => AVP::PrivateGroupId(PrivateGroupId::from(roomy(v))),
             (38, SVal::U32(v)) => AVP::RxConnectSpeed(RxConnectSpeed::from(*v)),
             (39, SVal::Empty) => AVP::SequencingRequired(SequencingRequired::default()),
             _ => return None,
